@@ -6,24 +6,27 @@ from props.b10util import parse_expanded as parse_out, show_out, coq_op, coq_uni
 ID = "C17"
 THEOREMS = ["C17_memory_refines_partial", "C17_memory_guard_tight", "C17_filesystem_refines_partial",
             "C17_backends_agree_partial", "C17_memory_refuted", "C17_filesystem_refuted_cas",
-            "C17_backends_agree_refuted"]
+            "C17_backends_agree_refuted", "C17_loose_filesystem_refines_partial", "C17_loose_delete_then_enumerate",
+            "C17_loose_memory"]
 MODEL_FILES = ["StorageAPI.v"]
 MODELLED = ("storage/memory/storage.go (ReferenceStorage incl. CheckAndSetReference, ObjectStorage, IndexStorage, ConfigStorage, "
             "ShallowStorage, ReflogStorage) as mem_step; storage/filesystem + dotgit at API level as fs_step: SetRef/setRefRwfs/"
             "checkReferenceAndTruncate, Ref, Refs, RemoveRef (packed-refs first)/rewritePackedRefsWithoutRef, PackRefs (hash references only, symbolic ones stay loose), processLine over loose files "
             "(possibly empty) and packed-refs lines (possibly malformed); objects as a set (loose + packed), index/config/shallow/"
-            "reflog files as values (Model/StorageAPI.v); spec: the abstract store (Spec/AStore.v st_step). One filesystem model "
+            "reflog files as values (Model/StorageAPI.v); storer.LooseObjectStorer DeleteLooseObject / ForEachObjectHash as a layer (lw_step) "
+            "that tracks the loose and the packed copies over any of the three state machines (memory: refused / every object); spec: the abstract store (Spec/AStore.v st_step). One filesystem model "
             "for every Options value and object format. Not modelled: Module storers, CountLooseRefs, alternates, directory/file conflicts between reference names, concurrent access, I/O errors; peeled (^) lines of packed-refs "
             "(no storer call writes them)")
 TRUSTED = [
-    "C-impl: every case is run on storage/memory and on storage/filesystem (memfs / osfs) under several option sets by harness/cmd/c17 and compared with Model/StorageAPI.c17_run",
-    "oracle: Model/StorageAPI.c17_spec_run (the abstract store) evaluated in Coq on every case; every backend must answer every call, and the final snapshot, as the abstract store does",
+    "C-impl: every case is run on storage/memory and on storage/filesystem (memfs / osfs) under several option sets by harness/cmd/c17 and compared with Model/StorageAPI.c17_xrun",
+    "oracle: Model/StorageAPI.c17_spec_xrun (the abstract store with loose / packed copies) evaluated in Coq on every case; every backend must answer every call, and the final snapshot, as the abstract store does (memory, which documents that it has no loose objects: DeleteLooseObject refused, ForEachObjectHash = every object); the filesystem option sets of a case must agree with each other",
 ]
 ASSUMPTIONS = ["object ids determine type and size inside a case universe", "billy memfs / osfs behave like a filesystem"]
 RULE = ("case = list of storer API calls over 6 reference names (incl. HEAD and a long branch name) x 6 objects (one of a non-storable type), run on memory + 2-3 filesystem "
         "option sets out of {memfs, osfs} x {ExclusiveAccess, UseInMemoryIdx, LargeObjectThreshold=1, cache size 0} x {sha1, sha256}; "
         "buckets refs / objs / misc / logs / mixed / targeted (CAS on absent ref, PackRefs with loose symbolic ref, pack-remove-set, "
-        "packfile + loose duplicates, reopen) + Set/CAS transitions over every pair of value kinds {hash, short symbolic, long symbolic} x "
+        "packfile + loose duplicates, reopen, store - lookup (warms dotgit's object list) - DeleteLooseObject - enumerate with an ExclusiveAccess storer among the backends) "
+        "+ loose bucket (setobj / addpack / lookups / delobj / eachhash, deletions aimed at loose copies) + Set/CAS transitions over every pair of value kinds {hash, short symbolic, long symbolic} x "
         "{loose, packed-only, HEAD} (14 sampled per quick run, all 42 in the thorough tier); non-trivial = at least one write; distinct by content")
 
 LONG = "refs/heads/" + "l" * 70          # "ref: <LONG>" is longer than a sha256 reference line
@@ -36,7 +39,7 @@ OBJS = [[3, b"blob zero".hex()], [3, b"b1".hex()], [2, b"".hex()],
 NN, NO = len(NAMES), len(OBJS)
 assert NAMES[HEAD_IDX] == "HEAD"
 FS_OPTS = ["", "x", "i", "l", "c", "xi", "xl", "ilc", "xilc", "2", "x2", "il2"]
-WRITES = {"setref", "cas", "casnil", "delref", "setobj", "setidx", "setcfg", "setshallow", "applog", "dellog", "packrefs", "addpack"}
+WRITES = {"setref", "cas", "casnil", "delref", "setobj", "setidx", "setcfg", "setshallow", "applog", "dellog", "packrefs", "addpack", "delobj"}
 
 
 def rval(rng, sym=0.15):
@@ -49,6 +52,7 @@ class Gen:
     def __init__(self, rng, risky):
         self.rng, self.risky = rng, risky
         self.refs = {}
+        self.loose = set()
 
     def ref_op(self):
         rng = self.rng
@@ -90,6 +94,33 @@ class Gen:
             return [k]
         return [k, rng.randrange(NO - 1)]
 
+    def loose_op(self):
+        """object calls with DeleteLooseObject / ForEachObjectHash; deletions mostly hit a loose copy, and a lookup
+        (which fills dotgit's object list under ExclusiveAccess) usually precedes them"""
+        rng = self.rng
+        k = pick_weighted(rng, [(4, "setobj"), (1, "addpack"), (2, "hasobj"), (1, "sizeobj"), (2, "getobj"), (2, "iterobjs"),
+                                (4, "delobj"), (4, "eachhash"), (1, "reopen")])
+        if k == "setobj":
+            o = rng.randrange(NO - 1)
+            self.loose.add(o)
+            return [k, o]
+        if k == "addpack":
+            return [k, sorted(set(rng.randrange(NO - 1) for _ in range(rng.randrange(1, 3))))]
+        if k == "delobj":
+            if self.loose and rng.random() < 0.8:
+                o = rng.choice(sorted(self.loose))
+                self.loose.discard(o)
+                return [k, o]
+            return [k, rng.randrange(NO)]
+        if k == "getobj":
+            o = rng.randrange(NO - 1)
+            return [k, rng.choice([0, OBJS[o][0]]), o]
+        if k == "iterobjs":
+            return [k, rng.choice([0, 0, 3])]
+        if k in ("eachhash", "reopen"):
+            return [k]
+        return [k, rng.choice(sorted(self.loose)) if self.loose and rng.random() < 0.6 else rng.randrange(NO - 1)]
+
     def misc_op(self):
         rng = self.rng
         k = pick_weighted(rng, [(2, "setidx"), (2, "getidx"), (2, "setcfg"), (2, "getcfg"), (3, "setshallow"), (3, "getshallow"), (1, "reopen")])
@@ -106,18 +137,53 @@ class Gen:
         return [k, n, rng.randrange(1, 9)] if k == "applog" else [k, n]
 
     def any_op(self):
-        f = pick_weighted(self.rng, [(5, self.ref_op), (4, self.obj_op), (2, self.misc_op), (2, self.log_op)])
+        f = pick_weighted(self.rng, [(5, self.ref_op), (4, self.obj_op), (2, self.misc_op), (2, self.log_op), (2, self.loose_op)])
         return f()
 
 
 def coq_sop(o):
+    """-> Coq term of type Model.StorageAPI.xop"""
+    if o[0] == "delobj":
+        return "XDelLoose %d" % o[1]
+    if o[0] == "eachhash":
+        return "XEachHash"
     if o[0] == "packrefs":
-        return "SPackRefs"
+        return "XOp SPackRefs"
     if o[0] == "addpack":
-        return "SAddPack %s" % coq_nlist(o[1])
+        return "XOp (SAddPack %s)" % coq_nlist(o[1])
     if o[0] == "reopen":
-        return "SReopen"
-    return "SBase (%s)" % coq_op(o)
+        return "XOp SReopen"
+    return "XOp (SBase (%s))" % coq_op(o)
+
+
+class LooseStore(AbsStore):
+    """the abstract store with the loose / packed copies of every object (python twin of lw_step over spec_sstep,
+    Model/StorageAPI.v); loose=False: a storer without loose objects (storage/memory: DeleteLooseObject is refused,
+    ForEachObjectHash enumerates every object — python twin of xmem_step)"""
+
+    def __init__(self, objs, loose=True):
+        super().__init__(objs)
+        self.has_loose, self.loose, self.packed = loose, set(), set()
+
+    def step(self, o):
+        k = o[0]
+        if k == "delobj":
+            if not self.has_loose:
+                return ["err", "eNS"]
+            if o[1] not in self.loose:
+                return ["err", "eNE"]
+            self.loose.discard(o[1])
+            if o[1] not in self.packed:
+                self.objs.discard(o[1])
+            return ["ok"]
+        if k == "eachhash":
+            return ["ok"] + [str(x) for x in sorted(self.loose if self.has_loose else self.objs)]
+        r = super().step(o)
+        if k == "setobj" and r[0] == "ok":
+            self.loose.add(o[1])
+        elif k == "addpack":
+            self.packed.update(o[1])
+        return r
 
 
 def coq_sops(ops):
@@ -132,13 +198,18 @@ class Main(Suite):
     thorough_n = 2000
     coq_chunk = 200
 
-    def backends(self, rng):
-        """the first backend is the memory storer, the others filesystem storers"""
+    def backends(self, rng, exclusive=False):
+        """the first backend is the memory storer, the others filesystem storers; exclusive: one storer with
+        ExclusiveAccess (dotgit serves lookups and enumerations from its cached object list) and one without"""
         bs = ["memory" if rng.random() < 0.8 else "memory:2"]
         for _ in range(rng.randrange(2, 4)):
             kind = "memfs" if rng.random() < 0.8 else "osfs"
             o = rng.choice(FS_OPTS)
             bs.append(kind + (":" + o if o else ""))
+        if exclusive:
+            fmt = "2" if "2" in bs[1] else ""
+            bs[1] = ("memfs" if rng.random() < 0.8 else "osfs") + ":" + rng.choice(["x", "xi", "xl", "xilc"]) + fmt
+            bs[2] = ("memfs" if rng.random() < 0.8 else "osfs") + (":" + rng.choice(["", "i", "l", "ilc"]) + fmt).rstrip(":")
         return bs
 
     def exhaustive(self, rng):
@@ -146,12 +217,13 @@ class Main(Suite):
         import itertools
         alphabet = [["setref", 0, ["h", 0]], ["setref", 0, ["h", 1]], ["setref", 1, ["s", 0]], ["cas", 0, ["h", 1], 0, ["h", 0]],
                     ["getref", 0], ["iterrefs"], ["delref", 0], ["packrefs"], ["reopen"], ["setobj", 0], ["addpack", [0, 1]],
-                    ["iterobjs", 0], ["hasobj", 1]]
+                    ["iterobjs", 0], ["hasobj", 1], ["delobj", 0], ["eachhash"]]
         cases = []
         for k in (1, 2, 3):
             for seq in itertools.product(alphabet, repeat=k):
-                cases.append({"bucket": "exhaustive-%d" % k, "backends": self.backends(rng)[:3], "names": NAMES, "objs": OBJS,
-                              "ops": [list(o) for o in seq] + [["iterrefs"], ["iterobjs", 0]]})
+                cases.append({"bucket": "exhaustive-%d" % k, "backends": self.backends(rng, exclusive=any(o[0] == "delobj" for o in seq))[:3],
+                              "names": NAMES, "objs": OBJS,
+                              "ops": [list(o) for o in seq] + [["iterrefs"], ["iterobjs", 0], ["eachhash"]]})
         return cases
 
     def transitions(self, rng, full):
@@ -183,7 +255,7 @@ class Main(Suite):
     def gen(self, rng, n, tier):
         cases = self.exhaustive(rng) if tier == "thorough" else []
         cases += self.transitions(rng, full=tier == "thorough")
-        buckets = [(4, "refs"), (3, "objs"), (2, "misc"), (2, "logs"), (4, "mixed"), (3, "targeted")]
+        buckets = [(4, "refs"), (3, "objs"), (2, "misc"), (2, "logs"), (4, "mixed"), (3, "targeted"), (3, "loose")]
         for _ in range(n):
             b = pick_weighted(rng, buckets)
             # risky cases may contain the call pattern of the known finding (CAS on an absent reference);
@@ -194,13 +266,14 @@ class Main(Suite):
             if b == "targeted":
                 ops = self.targeted(rng)
             else:
-                f = {"refs": g.ref_op, "objs": g.obj_op, "misc": g.misc_op, "logs": g.log_op, "mixed": g.any_op}[b]
+                f = {"refs": g.ref_op, "objs": g.obj_op, "misc": g.misc_op, "logs": g.log_op, "mixed": g.any_op, "loose": g.loose_op}[b]
                 ops = [f() for _ in range(ln)]
             if not risky and b != "targeted":
                 ops = self.defuse(ops)
             if rng.random() < 0.5:
                 ops = ops + [["reopen"]] + [["getref", k] for k in range(NN)] + [["iterrefs"], ["iterobjs", 0], ["getidx"], ["getcfg"], ["getshallow"]]
-            cases.append({"bucket": b + ("-risky" if risky and b != "targeted" else ""), "backends": self.backends(rng),
+            deletes = any(o[0] == "delobj" for o in ops)
+            cases.append({"bucket": b + ("-risky" if risky and b != "targeted" else ""), "backends": self.backends(rng, exclusive=deletes),
                           "names": NAMES, "objs": OBJS, "ops": ops})
         return cases
 
@@ -224,7 +297,7 @@ class Main(Suite):
 
     def targeted(self, rng):
         n, m = rng.sample(range(NN), 2)
-        t = rng.randrange(10)
+        t = rng.randrange(13)
         v, w = ["h", rng.randrange(NO - 1)], ["h", rng.randrange(NO - 1)]
         if t == 0:      # CAS on an absent reference
             return [["cas", n, v, n, w], ["getref", n], ["iterrefs"], ["setref", n, w], ["iterrefs"]]
@@ -248,6 +321,18 @@ class Main(Suite):
         if t == 9:      # CAS whose old reference has another name than the new one
             return [["setref", n, v], ["setref", m, w], ["cas", n, ["h", (v[1] + 1) % (NO - 1)], m, w], ["getref", n],
                     ["cas", n, ["h", (v[1] + 2) % (NO - 1)], m, v], ["getref", n], ["iterrefs"]]
+        if t in (10, 11):   # store, look up (fills the object list of an ExclusiveAccess storer), delete the loose copy,
+            #                 enumerate / look up with no write in between; then a write and the same questions again
+            o, p = rng.sample(range(NO - 1), 2)
+            warm = rng.choice([["hasobj", o], ["getobj", 0, p], ["sizeobj", p], ["iterobjs", 0], ["eachhash"], ["hasobj", (o + 1) % (NO - 1)]])
+            ask = [["eachhash"], ["iterobjs", 0], ["hasobj", o], ["getobj", 0, o], ["hasobj", p]]
+            rng.shuffle(ask)
+            ops = [["setobj", o], ["setobj", p]] + ([["addpack", [rng.choice([o, p])]]] if t == 11 else []) + [warm, ["delobj", o]] + ask
+            return ops + [["delobj", o], ["setobj", o], ["eachhash"], ["delobj", p], ["eachhash"], ["iterobjs", 0]]
+        if t == 12:     # deletion of packed-only / absent / non-storable objects, loose + packed duplicates
+            o, p = rng.sample(range(NO - 1), 2)
+            return [["addpack", [o]], ["hasobj", o], ["delobj", o], ["eachhash"], ["setobj", o], ["setobj", p], ["eachhash"], ["delobj", o],
+                    ["hasobj", o], ["eachhash"], ["iterobjs", 0], ["delobj", NO - 1], ["delobj", p], ["reopen"], ["eachhash"], ["hasobj", p]]
         if t == 7:      # non-storable object type
             return [["setobj", NO - 1], ["hasobj", NO - 1], ["iterobjs", 0], ["getobj", 0, NO - 1], ["sizeobj", NO - 1]]
         # symbolic values and CAS on them
@@ -255,15 +340,16 @@ class Main(Suite):
                 ["cas", m, w, m, v], ["getref", m], ["iterrefs"]]
 
     def model_expr(self, c):
-        return "(c17_run %s %s)%%N" % (coq_universe(c["objs"]), coq_sops(c["ops"]))
+        return "(c17_xrun %s %s)%%N" % (coq_universe(c["objs"]), coq_sops(c["ops"]))
 
     def spec_expr(self, c):
-        return "(c17_spec_run %s %s)%%N" % (coq_universe(c["objs"]), coq_sops(c["ops"]))
+        return "(c17_spec_xrun %s %s)%%N" % (coq_universe(c["objs"]), coq_sops(c["ops"]))
 
     @staticmethod
-    def spec(c):
-        """the abstract store (python twin of Spec/AStore.v, cross-checked in extra())"""
-        st = AbsStore(c["objs"])
+    def spec(c, loose=True):
+        """the abstract store (python twin of Spec/AStore.v + the loose-object layer, cross-checked in extra());
+        loose=False: what a storer without loose objects (memory) owes"""
+        st = LooseStore(c["objs"], loose)
         return [[st.step(o) for o in c["ops"]], st.snapshot()]
 
     def nontrivial(self, c):
@@ -293,7 +379,7 @@ class Main(Suite):
             if r.get("panic"):
                 continue
             try:
-                got, want = parse_out(r["out"]), self.spec(c)
+                got, wants = parse_out(r["out"]), [self.spec(c, loose=False), self.spec(c, loose=True)]
                 mo = parse_out(model[c["id"]]) if model.get(c["id"]) else None
             except Exception as e:
                 fails[c["id"]] = "unparsable observable: %s" % e
@@ -305,7 +391,7 @@ class Main(Suite):
                 continue
             divs = []
             for bi, be in enumerate([c["backends"][0], "filesystem"]):
-                d = self.first_divergence(c["ops"], got[bi], want)
+                d = self.first_divergence(c["ops"], got[bi], wants[bi])
                 if d is None:
                     continue
                 agrees = False
